@@ -312,6 +312,14 @@ func extractStructFields(pkg *packages.Package, qf types.Qualifier, depth int32,
 			continue
 		}
 
+		//same exclusions as for top-level fields
+		if strings.HasPrefix(f.Name(), "_") {
+			continue
+		}
+		if parseNewTag(st.Tag(i)) == "-" {
+			continue
+		}
+
 		checkShadowAndAppend(fields, &Field{
 			name:          f.Name(),
 			qualifiedType: types.TypeString(f.Type(), qf),
